@@ -405,7 +405,10 @@ class History:
                 note_id(self.ctx, 'manager', c)
             else:
                 c = rng.choice(BENIGN_IDS[:6] if r < 0.6 else BENIGN_IDS)
-            if c not in ids and c.replace(':', '') not in ids:
+            # IDs are compared with the ':' taken out (new_manager() goes on
+            # with that form): two live managers never share an ID here, the
+            # same-ID case is the simulated restart
+            if c.replace(':', '') not in [i.replace(':', '') for i in ids]:
                 ids.append(c)
         rng.shuffle(ids)
         return ids
